@@ -23,6 +23,9 @@ fn requests() -> Vec<Req> {
             ("ws://a.com/x", "https://a.com/"),
             ("wss://a.com/x", "https://other.net/"),
             ("https://a.com/x", "https://nota.com/"),
+            // deep initiators: every parent domain, however many labels down, is covered by domain=
+            ("https://a.com/x", "https://p.q.r.x.sub.a.com/"),
+            ("https://a.com/x", "https://k.l.m.n.o.b.org/"),
         ] {
             if let Some(q) = make_req(url, src, ty) {
                 v.push(q);
